@@ -335,6 +335,9 @@ def g_prog(rng, mode=None):
         params = g_params(rng, reserved_p=0.03 if mode == "reserved" else 0.0, pool=RESERVED[:5])
         if mode == "reserved" and params and i == 0:
             params[0]["name"] = rng.choice(RESERVED[:5])
+            for q in params[1:]:  # parameter names stay distinct (a signature with a repeated name is outside the statement)
+                if q["name"] == params[0]["name"]:
+                    q["name"] = next(n_ for n_ in PNAMES if n_ not in [x["name"] for x in params])
         flows.append({"name": nm, "params": params, "rets": [], "body": []})
     by_name = {f["name"]: f for f in flows}
     forms = {nm: rng.choice(["await", "await", "await", "start", "activate"]) for nm in names}
@@ -835,6 +838,8 @@ def g_when_probe(rng):
 
 
 def gen_cases(rng, tier):
+    global _TIER
+    _TIER = tier
     n_fn, n_e2e, n_probe = (5000, 300, 60) if tier == "quick" else (200000, 10000, 1000)
     cases = enum_fn_shapes(3)
     cases += [g_fn(rng) for _ in range(n_fn)]
@@ -1066,13 +1071,19 @@ def _mutates(case):
     return case["kind"] == "probe" and (case["tmpl"].startswith(("inplace-", "restart-")) or ".append(" in case["src"] or ".update(" in case["src"])
 
 
+_TIER = None  # set by gen_cases in the parent before the worker pool is forked
+
+
 def run_impl(case):
     if case["kind"] == "fn":
         return run_fn(case)
+    # quick tier / replay / shrinking: EVERY program runs isolated (a replay must reproduce in a fresh process whatever
+    # module-level state an earlier program left in the code under test); thorough tier: the programs that mutate in place
+    iso = _TIER != "thorough" or _mutates(case)
     if case["kind"] == "e2e":
-        return (_isolated if _mutates(case) else run_prog)(render_prog(case["prog"]), [])
+        return (_isolated if iso else run_prog)(render_prog(case["prog"]), [])
     if case["kind"] == "probe":
-        return (_isolated if _mutates(case) else run_prog)(case["src"], case["events"])
+        return (_isolated if iso else run_prog)(case["src"], case["events"])
     raise ValueError(case["kind"])
 
 
@@ -1212,6 +1223,8 @@ def _vars(exprs):
 def spec_bind(params, pos_vals, named_vals):
     """The property text: parameter i := positional i | named | declared default | None."""
     names = [p["name"] for p in params]
+    if len(set(names)) != len(names):
+        raise _NoExpectation("repeated parameter name")
     if len(pos_vals) > len(params) or any(k not in names for k in named_vals) or any(nm in named_vals for nm in names[:len(pos_vals)]):
         raise _NoExpectation("call shape outside the statement")
     if any(nm in RESERVED or nm == "context" for nm in names):
